@@ -50,8 +50,9 @@ ASSUMPTIONS = [
     "backwards during a case; the two bracket readings then enclose the interpreter's own reading",
     "'advance' adds whole seconds to the Clock instance attribute time_offset of our own session "
     "(state injection, not a repository hook)",
-    "a case whose bracket straddles a model midnight while a date is being set is counted "
-    "inconclusive (the date the interpreter saw is ambiguous)",
+    "when a TIME$/DATE$ assignment happens while the model time may lie on either side of "
+    "midnight, both possible dates are carried as candidate states and pruned by the following "
+    "read-backs (inconclusive only if more than 8 candidates accumulate)",
     "environment values are compared as bytes; all bytes 1..255 map uniquely through codepage 437 "
     "(verified by enumeration in the 'env-bytes' unit); names are restricted to ASCII",
     "ENVIRON$(n) with a numeric index is outside the statement and not asserted",
@@ -176,42 +177,54 @@ def classify_env(b):
 # clock model
 
 class ClockModel(object):
-    """BASIC time = host time + off, off in [lo, hi]."""
+    """
+    BASIC time = host time + off.  The model keeps a small set of candidate offset intervals
+    [lo, hi]: normally one; two when a set operation happens while the model time may be on either
+    side of midnight (the date the interpreter saw is then one of two).  A read-back must agree
+    with some candidate; candidates that disagree with what was read are dropped.
+    """
+
+    MAXC = 8
 
     def __init__(self):
-        self.lo = datetime.timedelta()
-        self.hi = datetime.timedelta()
+        self.c = [(datetime.timedelta(), datetime.timedelta())]
 
-    def window(self, wb, wa):
-        return wb + self.lo - SLOP, wa + self.hi + SLOP
+    @staticmethod
+    def _window(lo, hi, wb, wa):
+        return wb + lo - SLOP, wa + hi + SLOP
 
     def set_time(self, hms, wb, wa):
-        """-> False if the date is ambiguous over the bracket."""
-        cl, ch = self.window(wb, wa)
-        if cl.date() != ch.date():
-            return False
-        base = datetime.datetime.combine(cl.date(), datetime.time(*hms))
-        # new BASIC time at the (unknown) instant w in [wb, wa] lies in [base, base + 1s)
-        self.lo = base - wa
-        self.hi = base + ONE - datetime.timedelta(microseconds=1) - wb
-        return True
+        """-> False if the model degenerates (too many candidates)."""
+        new = []
+        for lo, hi in self.c:
+            cl, ch = self._window(lo, hi, wb, wa)
+            for day in sorted({cl.date(), ch.date()}):
+                base = datetime.datetime.combine(day, datetime.time(*hms))
+                # BASIC time at the (unknown) instant w in [wb, wa] lies in [base, base + 1s)
+                cand = (base - wa, base + ONE - datetime.timedelta(microseconds=1) - wb)
+                if cand not in new:
+                    new.append(cand)
+        self.c = new
+        return len(new) <= self.MAXC
 
     def set_date(self, date, wb, wa):
-        cl, ch = self.window(wb, wa)
-        if cl.date() != ch.date():
-            return False
-        delta = datetime.timedelta(days=(date - cl.date()).days)
-        self.lo += delta
-        self.hi += delta
-        return True
+        new = []
+        for lo, hi in self.c:
+            cl, ch = self._window(lo, hi, wb, wa)
+            for day in sorted({cl.date(), ch.date()}):
+                delta = datetime.timedelta(days=(date - day).days)
+                cand = (lo + delta, hi + delta)
+                if cand not in new:
+                    new.append(cand)
+        self.c = new
+        return len(new) <= self.MAXC
 
     def advance(self, k):
-        self.lo += datetime.timedelta(seconds=k)
-        self.hi += datetime.timedelta(seconds=k)
+        d = datetime.timedelta(seconds=k)
+        self.c = [(lo + d, hi + d) for lo, hi in self.c]
 
-    def times(self, wb, wa):
-        """All HH:MM:SS strings possible for a read bracketed by [wb, wa]."""
-        cl, ch = self.window(wb, wa)
+    def _times_of(self, lo, hi, wb, wa):
+        cl, ch = self._window(lo, hi, wb, wa)
         out = set()
         x = cl.replace(microsecond=0)
         n = 0
@@ -221,9 +234,29 @@ class ClockModel(object):
             n += 1
         return out
 
-    def dates(self, wb, wa):
-        cl, ch = self.window(wb, wa)
+    def _dates_of(self, lo, hi, wb, wa):
+        cl, ch = self._window(lo, hi, wb, wa)
         return {cl.strftime('%m-%d-%Y'), ch.strftime('%m-%d-%Y')}
+
+    def times(self, wb, wa):
+        """All HH:MM:SS strings possible for a read bracketed by [wb, wa]."""
+        out = set()
+        for lo, hi in self.c:
+            out |= self._times_of(lo, hi, wb, wa)
+        return out
+
+    def dates(self, wb, wa):
+        out = set()
+        for lo, hi in self.c:
+            out |= self._dates_of(lo, hi, wb, wa)
+        return out
+
+    def observe(self, kind, text, wb, wa):
+        """Drop the candidates that cannot have produced what was read."""
+        f = self._times_of if kind == 'time' else self._dates_of
+        keep = [(lo, hi) for lo, hi in self.c if text in f(lo, hi, wb, wa)]
+        if keep:
+            self.c = keep
 
 
 def _b(s):
@@ -241,7 +274,7 @@ def check_clock(case, res):
 def _check_clock(case, res, nontrivial):
     model = ClockModel()
     now = datetime.datetime.now
-    with harness.Sess(budget=2000) as s:
+    with harness.Sess(budget=2000, video='cga') as s:
         clock = s.impl.clock
         for i, op in enumerate(case['ops']):
             kind = op['op']
@@ -308,6 +341,7 @@ def _check_clock(case, res, nontrivial):
                 res.fail('time.readback', '%s: TIME$=%r, model allows %s' % (
                     desc, t.value, sorted(exp_t)))
                 return
+            model.observe('time', bytes(t.value).decode('latin-1'), wb, wa)
             wb = now()
             d = s.evaluate(b'DATE$')
             wa = now()
@@ -319,6 +353,9 @@ def _check_clock(case, res, nontrivial):
                 res.fail('date.readback', '%s: DATE$=%r, model allows %s' % (
                     desc, d.value, sorted(exp_d)))
                 return
+            model.observe('date', bytes(d.value).decode('latin-1'), wb, wa)
+            if len(model.c) > 1:
+                res.label('two-candidates')
 
 
 # --------------------------------------------------------------------------------------------
@@ -329,7 +366,7 @@ def check_env(case, res):
     model = {}
     nontrivial = False
     try:
-        with harness.Sess(budget=2000) as s:
+        with harness.Sess(budget=2000, video='cga') as s:
             for i, op in enumerate(case['ops']):
                 desc = 'op %d %r of %r' % (i, op, case['ops'])
                 if op['op'] == 'set':
@@ -734,6 +771,9 @@ KILLS = [
     "clock.py date_: month/day swapped in datetime(...) -> date.readback, date.valid-rejected",
     "clock.py date_: `datelist[2] <= 77` -> `< 77` -> date.readback (1-31-77)",
     "clock.py date_: time of day reset to midnight on DATE$= -> time.readback",
+    "clock.py time_: new time placed on the previous day -> date.readback",
+    "SURVIVES (equivalent): clock.py time_: running fraction of a second reset to 0 - the statement "
+    "leaves the fraction unspecified",
     "dos.py _setenv: ukey.upper() dropped -> env.readback, env.not-in-host-environment",
     "dos.py _getenv: ukey.upper() dropped -> env.readback",
     "dos.py environ_statement_: `eqs <= 0` -> `< 0` -> escaped.OSError@python3.py:setenvu",
